@@ -177,6 +177,10 @@ impl Address {
     pub fn from_string(s: &String) -> Self {
         Address(s.id ^ 0x5a5a_0000_0000_0000)
     }
+    /// address -> strkey: the inverse of `from_string`
+    pub fn to_string(&self) -> String {
+        String { id: self.0 ^ 0x5a5a_0000_0000_0000 }
+    }
 }
 impl Wordy for Address {
     const NW: usize = 1;
@@ -225,9 +229,13 @@ impl String {
     pub fn with_content(s: &[u8]) -> Self {
         String { id: content_id(s) }
     }
+    /// the string with exactly these bytes (same bytes <=> same identity, via the content table)
+    pub fn from_bytes(_e: &Env, s: &[u8]) -> Self {
+        String { id: content_id(s) }
+    }
     pub fn len(&self) -> u32 {
-        if self.id != EMPTY_ID && has_content(self.id) {
-            return content_of(self.id).len() as u32;
+        if has_content(self.id) {
+            return content_len(self.id) as u32;
         }
         len_of(self.id)
     }
@@ -241,13 +249,13 @@ impl String {
         if !has_content(self.id) {
             harness_bug("String content is abstract: stub the caller by its contract");
         }
-        let c = content_of(self.id);
-        if c.len() != out.len() {
+        let n = content_len(self.id);
+        if n != out.len() {
             trap();
         }
         let mut i = 0;
-        while i < out.len() {
-            out[i] = c[i];
+        while i < n {
+            out[i] = content_byte(self.id, i);
             i += 1;
         }
     }
@@ -316,8 +324,8 @@ impl Bytes {
         Bytes { id: EMPTY_ID }
     }
     pub fn len(&self) -> u32 {
-        if self.id != EMPTY_ID && has_content(self.id) {
-            return content_of(self.id).len() as u32;
+        if has_content(self.id) {
+            return content_len(self.id) as u32;
         }
         len_of(self.id)
     }
@@ -731,6 +739,12 @@ macro_rules! storage_impl {
 storage_impl!(Instance, instance);
 storage_impl!(Persistent, persistent);
 storage_impl!(Temporary, temporary);
+impl Storage {
+    /// the network's maximum entry lifetime: an arbitrary value, fixed during a run
+    pub fn max_ttl(&self) -> u32 {
+        host().max_ttl
+    }
+}
 // TTL / archival is not modelled (axiom A-TTL): entries never vanish.
 impl Instance {
     pub fn extend_ttl(&self, _a: u32, _b: u32) {}
